@@ -4,7 +4,7 @@ import os
 import re
 from fractions import Fraction
 
-from common import standard_prologue, run_sharded, HX, DRV, VERIF, enc, dec
+from common import standard_prologue, run_sharded, HX, DRV, VERIF, OKANE, WORK, enc, dec
 
 CLAIM = {
     "technique": "Lean 4 theorems relating the model of parse/expr.rs + report/eval (association-list amounts, check_add/sub/mul/div, "
@@ -354,6 +354,56 @@ def corpus_cases():
 
 # ---------------------------------------------------------------------------------------------
 
+CLI_LEDGER = "2024/01/01 x\n    P  1 A\n    P  1 B\n    P  1 USD\n    P  1 EUR\n    Q\n"
+_CLI_TERM = re.compile(r"(-?[0-9][0-9,]*(?:\.[0-9]+)?)(?: ([^ ()+]+))?")
+
+
+def cli_stream(c):
+    """`okane primitive eval -f FILE -- EXPR` (the command-line entry point: cmd.rs joins the terms and parses them as one
+    value expression) against the library's Ledger::eval of the parenthesised text"""
+    import subprocess
+    d = os.path.join(WORK, "C08", "cli")
+    os.makedirs(d, exist_ok=True)
+    path = os.path.join(d, "small.ledger")
+    open(path, "w").write(CLI_LEDGER)
+    exprs = ["1 A + 2 A", "(1 A + 2 A) * (3)", "(1 A) + (2 A)", "(10 A + 5 A) / (1 + 2)", "(1 A + 1 B) - (2 A - 2 B)", "(1 A)", "((1 A))",
+             "(1 A + 2 A)", "(1 A + 2 A) * 3", "3 * (1 A + 2 A)", "-(1 A) + (4 A)", "(2) * (3) * (1 A)", "(6 / (3 A))", "1 A * 1 B", "1 + 1 A",
+             "(1 A) (2 A)", "(1 A", "1 A)", "", "()", "(1 A + 2 B) * (2)", "(8 A / 4 * 2)", "(1 A - 2 A - 3 A)", "(-2 * -(3 A) / 4)"]
+    for _ in range(20 if c.tier == "quick" else 300):
+        a, b = c.rng.choice(LEAVES + ["1 A", "4"]), c.rng.choice(LEAVES + ["2 B", "4"])
+        op = c.rng.choice("+-*/")
+        exprs.append(c.rng.choice(["(%s) %s (%s)", "(%s %s %s)", "%s %s %s", "(%s) %s %s", "-(%s) %s (%s)"]) % (a, op, b))
+    lines = ["eval %s" % enc("(" + e + ")") for e in exprs]
+    lib = run_sharded(HX, ["c08"], lines, shards=1)
+    c.streams["cli: okane primitive eval"] = len(exprs)
+    for e, rec in zip(exprs, lib):
+        c.case(("cli", e), nontrivial=bool(e.strip()))
+        c.traces += 1
+        _t, _, ires = rec.partition(" res=")
+        try:
+            ir = parse_res(ires, True)
+        except Exception:  # noqa: BLE001
+            ir = ("unreadable",)
+        p = subprocess.run([OKANE, "primitive", "eval", "--date", "2024-06-01", "-f", path, "--"] + ([e] if c.rng.random() < 0.7 else e.split(" ")),
+                           stdout=subprocess.PIPE, stderr=subprocess.PIPE, text=True, timeout=60)
+        replay = {"stream": "c08 cli", "expr": e, "library": rec, "cli_status": p.returncode, "cli_stdout": p.stdout, "cli_stderr": p.stderr[-300:],
+                  "rerun": "%s primitive eval --date 2024-06-01 -f %s -- '%s'" % (OKANE, path, e)}
+        if ir[0] == "ok":
+            got = {}
+            for m in _CLI_TERM.finditer(p.stdout.strip()):
+                got[m.group(2) or ""] = got.get(m.group(2) or "", Fraction(0)) + Fraction(m.group(1).replace(",", ""))
+            want = {k: v for k, v in ir[1].items()}
+            if p.returncode != 0 or nz(got) != nz(want):
+                c.oracle_failures += 1
+                c.violation("`okane primitive eval -- %s` does not print the value of the expression (library: %s; CLI: exit %d, %r)"
+                            % (e, showd(want), p.returncode, p.stdout.strip()[:80]), replay)
+        elif ir[0] in ("err", "parse-err") or ires.startswith("-") or "err" in ires[:12]:
+            if p.returncode == 0:
+                c.oracle_failures += 1
+                c.violation("`okane primitive eval -- %s` prints a value (%r) for an expression the library rejects (%s)"
+                            % (e, p.stdout.strip()[:80], ires[:80]), replay)
+
+
 def run(chk_):
     c = chk_
     c.rule = ("expression texts with exactly n binary operators for n <= 2 (quick) / n <= 3 (thorough) over the leaves 0, 2, 3 A, 5 B "
@@ -388,6 +438,16 @@ def run(chk_):
         if i < 400 or i % stride == 0:
             for p in POSITIONS[1:]:
                 cases.append(("exhaustive", p, t, True))
+    # divisions whose exact result terminates although the reciprocal of the divisor does not (6 / (3 A) = 2 A exactly,
+    # while 1/3 needs rounding): every arm of the division table must divide, not multiply by a rounded reciprocal
+    for y in ("3", "6", "7", "9", "11", "13", "0.3", "0.07"):
+        for k in (1, 2, 5, Fraction(1, 2)):
+            n = Fraction(y) * k
+            ntxt = str(n.numerator) if n.denominator == 1 else ("%.4f" % float(n)).rstrip("0")
+            for t in ("(%s / (%s A))" % (ntxt, y), "((%s A) / %s)" % (ntxt, y), "(%s / %s)" % (ntxt, y), "(%s A / %s)" % (ntxt, y),
+                      "(2 * (%s / (%s A)))" % (ntxt, y)):
+                for p in POSITIONS:
+                    cases.append(("division", p, t, True))
     nrand = 3000 if quick else 60000
     for i in range(nrand):
         t = rand_expr(c.rng, c.rng.randint(1, 6))
@@ -496,6 +556,7 @@ def run(chk_):
     for i in (len(corpus_cases()) * 5 + 777, len(lines) - 11):
         if 0 <= i < len(lines):
             c.sample({"position": cases[i][1], "expr": cases[i][2], "impl": impl[i][:300], "model": model[i][:300]})
+    cli_stream(c)
 
 
 def balanced_outer(t):
